@@ -1,0 +1,29 @@
+//go:build !verif
+
+/*
+ * SPDX-License-Identifier: Apache-2.0
+ */
+
+package ristretto
+
+import "time"
+
+// Verification hooks, disabled. Every function here has an empty or identity
+// body so that the compiler removes the call sites; the shipped behaviour is
+// exactly the behaviour without hooks. Build with `-tags verif` to enable them
+// (see verif_on.go).
+
+type verifLoopState struct{}
+type verifRingState struct{}
+
+func verifYield(site int, key uint64)                         {}
+func verifEvent(kind int, key uint64, a, b int64)             {}
+func verifTaskStart(kind int, obj any)                        {}
+func verifTaskEnd(kind int)                                   {}
+func verifIdle(kind int, st *verifLoopState)                  {}
+func verifStopRequest(st *verifLoopState)                     {}
+func verifRingPush(b *ringBuffer, item uint64) bool           { return false }
+func verifRange[V any](m map[uint64]V, site int) map[uint64]V { return m }
+
+func verifGate[T any](ch <-chan T, st *verifLoopState, which int) <-chan T   { return ch }
+func verifGateTick(ch <-chan time.Time, st *verifLoopState) <-chan time.Time { return ch }
